@@ -16,7 +16,7 @@ CONDS = ['tsv_first_last', 'tsv_middle', 'tsv_three_small', 'tsv_wrong_count', '
 INFO = {
     'engine': 'crosshair-tool 0.0.110 + z3',
     'explanation': 'see level text',
-    'bounds': {'quick': {c: 'see precondition in harness/ch_c16.py' for c in CONDS}, 'thorough': {c: 'same conditions, longer per-condition budget' for c in CONDS}},
+    'bounds': {'quick': {c: 'see precondition in harness/ch_c16.py' for c in CONDS}, 'thorough': {c: 'same conditions with one more symbolic character per string, longer per-condition budget' for c in CONDS}},
     'outside': ['cells containing line breaks (excluded by the statement)', 'longer cells / more columns', 'the field-count test of the streaming loop itself (C08 drives it with malformed lines)'],
     'assumptions': ['open() replaced by a list-of-lines stub for the namespace map', 'SequenceConcatenation.__eq__ of crosshair 0.0.110 patched; sequences compared element-wise'],
     'job_timeout': {'quick': 500, 'thorough': 1800},
